@@ -761,6 +761,8 @@ class DAG(BaseDAG[P, RVDAG]):
                     continue
 
                 values = asdict(exec_node)
+                # asdict recursively turns dataclasses into dicts: a DAG used as the function of an ExecNode is one
+                values["exec_function"] = deepcopy(exec_node.exec_function)
                 values["id_"] = new_id
 
                 values["args"] = [
